@@ -265,6 +265,17 @@ Definition enc_seq (fuel : nat) (e : encoder) (vs : list val) (st : strtab) : en
     Ok (write_var_i32 (Z.of_N (nlen vs)) ++ b, st)
   else Err ELengthTooLarge.
 
+(* serialize_iterator without an exact size hint: marker -1, each item behind a flag byte 1, terminator 0
+   (this crate's own writers never take this path for the built-in containers; Scala's List does) *)
+Fixpoint enc_items_flagged (fuel : nat) (e : encoder) (vs : list val) (st : strtab) : enc_result :=
+  match vs with
+  | [] => Ok ([0], st)
+  | v :: r => match fuel with O => Fuel | S fl =>
+      '(b1, st) <- e v st ;; '(b2, st) <- enc_items_flagged fl e r st ;; Ok (1 :: b1 ++ b2, st) end
+  end.
+Definition enc_seq_unknown (fuel : nat) (e : encoder) (vs : list val) (st : strtab) : enc_result :=
+  '(b, st) <- enc_items_flagged fuel e vs st ;; Ok (write_var_i32 (-1) ++ b, st).
+
 (* fields of a version-0 record, in declaration order, transient ones skipped *)
 Fixpoint enc_fields_v0 (encf : ty -> encoder) (fs : list field) (vs : list val) (st : strtab)
   : enc_result :=
